@@ -135,7 +135,7 @@ class E(opscalar.ScalarOp):
             duration = self.tau
             if axes is not None and np.ndim(duration) > 0:
                 # the duration follows the operator to its axes
-                own = axes if isinstance(axes, int) else tuple(axes)[: np.ndim(duration)]
+                own = axes if isinstance(axes, int) else tuple(sorted(axes))[: np.ndim(duration)]
                 duration = common.set_axes(0, np.asarray(duration), own)
 
         # init operator
@@ -216,7 +216,7 @@ class P(opscalar.ScalarOp):
             duration = self.tau
             if axes is not None and np.ndim(duration) > 0:
                 # the duration follows the operator to its axes
-                own = axes if isinstance(axes, int) else tuple(axes)[: np.ndim(duration)]
+                own = axes if isinstance(axes, int) else tuple(sorted(axes))[: np.ndim(duration)]
                 duration = common.set_axes(0, np.asarray(duration), own)
 
         # init operator
